@@ -88,6 +88,8 @@ type Sess struct {
 	read       int // Inbox[:read] already consumed by Take
 	ctl        chan int
 	Dead       chan struct{} // closed when the client side sees its receive channel closed
+	closeReq   chan struct{} // closed when the harness decides to close the client end
+	sending    int           // sends in flight
 	Stalled    bool
 	nextReq    wamp.ID
 	drainDone  bool
@@ -151,7 +153,7 @@ func AllFeatures() wamp.Dict {
 // NewSess creates (but does not attach) a session over the local transport.
 func (w *World) NewSess(name string, realm wamp.URI, local bool, qsize int, hello wamp.Dict) *Sess {
 	cli, rtr := transport.LinkedPeersQSize(qsize)
-	s := &Sess{W: w, Idx: len(w.Sess), Name: name, Realm: realm, Cli: cli, Rtr: rtr, Local: local, QSize: qsize, ctl: make(chan int), Dead: make(chan struct{}), Hello: hello}
+	s := &Sess{W: w, Idx: len(w.Sess), Name: name, Realm: realm, Cli: cli, Rtr: rtr, Local: local, QSize: qsize, ctl: make(chan int), Dead: make(chan struct{}), closeReq: make(chan struct{}), Hello: hello}
 	if !local {
 		s.Rtr = nonLocalPeer{rtr}
 	}
@@ -281,11 +283,15 @@ func (s *Sess) TrySendFor(m wamp.Message, d time.Duration) bool {
 	simrt.Log("%s -> %s", s.Name, Brief(m))
 	t := time.NewTimer(d)
 	defer t.Stop()
+	s.sending++
+	defer func() { s.sending-- }()
 	select {
 	case s.Cli.Send() <- m:
 		return true
 	case <-s.Dead:
 		simrt.Log("%s send: session dead", s.Name)
+		return false
+	case <-s.closeReq:
 		return false
 	case <-t.C:
 		simrt.Log("%s send timed out", s.Name)
@@ -302,6 +308,14 @@ func (s *Sess) CloseTransport() {
 	s.CliClosed = true
 	s.Left = true
 	simrt.Log("%s closes transport", s.Name)
+	close(s.closeReq)
+	// a real client closes its connection only once; sends in flight from
+	// other goroutines of the simulated client give up first
+	for s.sending > 0 {
+		// not a spin on Yield: under the FIFO strategy that would starve
+		// the sender; a 1µs virtual sleep lets everything else run first
+		time.Sleep(time.Microsecond)
+	}
 	s.Cli.Close()
 }
 
